@@ -81,6 +81,22 @@ func helper(s d.S) int {
 """
 
 
+CHAIN_SRC = """package chain
+
+import "m/d"
+
+func chained() {
+	_ = d.MkTS().TM(1)
+	_ = d.MkS().PM(2)
+}
+
+// A claims two interfaces and implements neither.
+// @implements nope.I
+// @implements d.I
+type A struct{}
+"""
+
+
 def probe():
     src, where = gen_all.use_file("p", "p/a.go")
     src2, _ = gen_all.use_file("w", "w/a.go")
@@ -96,8 +112,9 @@ def probe():
         {"path": "m/ig", "name": "ig", "files": [{"name": "ig/ig.go", "src": IGN_SRC}]},
         {"path": "m/nest", "name": "nest", "files": [{"name": "nest/n.go", "src": NEST_SRC}]},
         {"path": "m/tctx", "name": "tctx", "files": [{"name": "tctx/t.go", "src": TCTX_SRC}]},
+        {"path": "m/chain", "name": "chain", "files": [{"name": "chain/c.go", "src": CHAIN_SRC}]},
     ]}
-    cls = {"w/a.go": "regular2", "p/a.go": "regular", "p/a_test.go": "test", "xtestdatax/q.go": "tdpath", "xtestdatax/q_test.go": "tdtest", "zzgen/g.go": "genpath", "ig/ig.go": "ignored", "nest/n.go": "nested", "tctx/t.go": "tctx"}
+    cls = {"w/a.go": "regular2", "p/a.go": "regular", "p/a_test.go": "test", "xtestdatax/q.go": "tdpath", "xtestdatax/q_test.go": "tdtest", "zzgen/g.go": "genpath", "ig/ig.go": "ignored", "nest/n.go": "nested", "tctx/t.go": "tctx", "chain/c.go": "chain"}
     return prog, cls
 
 
